@@ -201,6 +201,7 @@ impl Run {
   }
   /// Record a violating state. `finding` = pattern id this state matches, if any.
   pub fn viol(&mut self, v: Viol) {
+    dump_viol(&v);
     match &v.finding {
       Some(f) => {
         let c = self.attributed.entry(f.clone()).or_insert(0);
